@@ -19,8 +19,33 @@ fn by_ctx(hs: &[Heading]) -> BTreeMap<Vec<String>, Vec<u8>> {
 pub fn check_doc(key: &str, text: &str) -> Option<String> {
     let dir = crate::oracle::md::dir_of(key);
     let out = c01::format_single(key, text, "").ok()?;
-    let a = md::read(text, &dir);
-    let b = md::read(&out, &dir);
+    // the formatting request of the LSP server copies the note into a patch graph first: same text
+    {
+        let mut st = std::collections::HashMap::new();
+        st.insert(key.to_string(), text.to_string());
+        if let Ok(lsp) = c01::format_lsp(&st, key, "") {
+            if lsp != out {
+                return Some(format!("textDocument/formatting returns another text than the export of the note: {}", crate::props::c02::first_line_diff(&out, &lsp)));
+            }
+        }
+    }
+    let mut a = md::read(text, &dir);
+    let mut b = md::read(&out, &dir);
+    // a container without content (a list of empty items, an empty quote) is not written: the containers after it are
+    // then numbered differently, so for such inputs the containers are compared by kind and item number only
+    if text.lines().any(|l| matches!(l.trim_start_matches(|c| c == ' ' || c == '>').trim(), "-" | "1." | "") && (l.trim() == "-" || l.trim() == "1." || l.trim() == ">")) {
+        let strip = |ctx: &mut Vec<String>| {
+            for c in ctx.iter_mut() {
+                if c.starts_with("ul") || c.starts_with("ol") || c.starts_with("quote") {
+                    *c = c.trim_end_matches(|ch: char| ch.is_ascii_digit()).to_string();
+                }
+            }
+        };
+        for r in [&mut a, &mut b] {
+            r.headings.iter_mut().for_each(|h| strip(&mut h.ctx));
+            r.blocks.iter_mut().for_each(|bl| strip(&mut bl.0));
+        }
+    }
     // headings stay in order with their text and container
     let ha: Vec<(Vec<String>, String)> = a.headings.iter().map(|h| (h.ctx.clone(), h.text.clone())).collect();
     let hb: Vec<(Vec<String>, String)> = b.headings.iter().map(|h| (h.ctx.clone(), h.text.clone())).collect();
@@ -125,7 +150,19 @@ pub fn run(ctx: &Ctx, model: &mut Model, rep: &mut Report) {
         let key = r.pick(&keys[..]).clone();
         let mut p = hist::profile_for(&keys, &key, true);
         p.max_depth = 5;
-        let text = if i % 97 == 5 || i % 97 == 6 { gen::long_ordered_list(&mut r) } else { gen::document(&mut r, &p) };
+        let mut text = if i % 97 == 5 || i % 97 == 6 { gen::long_ordered_list(&mut r) } else { gen::document(&mut r, &p) };
+        // every fifth document: a container without content (a list of empty items, an empty quote) right under a heading
+        if i % 5 == 4 {
+            let lines: Vec<&str> = text.lines().collect();
+            let heads: Vec<usize> = lines.iter().enumerate().filter(|(_, l)| l.starts_with('#') && !l.starts_with("#######")).map(|(n, _)| n).collect();
+            if !heads.is_empty() {
+                let at = *r.pick(&heads[..]);
+                let hollow = *r.pick(&["-", "1.", ">", "-\n-"][..]);
+                let mut out: Vec<String> = lines.iter().map(|l| l.to_string()).collect();
+                out.insert(at + 1, format!("\n{}\n", hollow));
+                text = out.join("\n") + "\n";
+            }
+        }
         docs.push((key, text, i % 3 == 0));
     }
     for (i, (key, text, corr)) in docs.iter().enumerate() {
